@@ -584,6 +584,190 @@ pub fn d13(residue: usize, chain: usize) -> bool {
     get(9) == 1
 }
 
+// ---------------------------------------------------------------------------------------------
+// D14: a long critical section whose owner keeps doing guard-level and retirement work (inner guards
+// re-activated / re-created / flushed, bursts of retirements under the outer guard) while another
+// thread unlinks what the outer guard protects and drives collection rounds in lock step.
+pub const D14_OPS: usize = 10;
+pub fn d14(residue: usize, inner_op: usize, holder: usize) -> bool {
+    reset(residue, 0);
+    let (x, xid) = new_node(3);
+    let sh = Arc::new(Sh { roots: vec![AtomicRc::null(), AtomicRc::null()], wroots: vec![AtomicWeak::null()] });
+    {
+        let g = circ::cs();
+        let w = x.downgrade();
+        obj(xid).weak.fetch_add(1, SeqCst);
+        sh.wroots[0].store(w, SeqCst, &g);
+        if holder == 1 {
+            // only the block survives (held by the weak root)
+            drop(x);
+        } else {
+            l_rc(xid, 1);
+            sh.roots[0].store(x, SeqCst, &g);
+            l_rc(xid, -1);
+        }
+    }
+    if holder == 1 {
+        if drain(200).is_none() {
+            mon::harness_error("d14 setup: cannot drain");
+        }
+    }
+    let rounds = 10usize;
+    let s0 = sh.clone();
+    let b0: Box<dyn FnOnce() + Send> = Box::new(move || {
+        let g = circ::cs();
+        let a0 = verif::local_state(&g).map_or(0, |s| s.announced);
+        let serial = mon::guard_register(verif::local_id(&g));
+        let mut snap = None;
+        let mut wsnap = None;
+        match holder {
+            0 => {
+                let s = s0.roots[0].load(SeqCst, &g);
+                l_snap(xid, 0, 1);
+                snap = Some(s);
+            }
+            1 => {
+                let ws = s0.wroots[0].load(SeqCst, &g);
+                obj(xid).wsnap.fetch_add(1, SeqCst);
+                wsnap = Some(ws);
+            }
+            _ => {
+                let ws = s0.wroots[0].load(SeqCst, &g);
+                let s = ws.upgrade().expect("upgrade of a live object");
+                l_snap(xid, 5, 1);
+                snap = Some(s);
+            }
+        }
+        mon::oplog(0, format!("g = cs() at epoch {}; holder kind {} taken under g; then {} rounds of inner op {}", a0, holder, rounds, inner_op));
+        let mut g1 = if matches!(inner_op, 1 | 2 | 3 | 7) { Some(circ::cs()) } else { None };
+        set(1, 1);
+        wait(2, 1);
+        for round in 0..rounds {
+            match inner_op {
+                0 => {
+                    let mut t = circ::cs();
+                    t.reactivate();
+                    drop(t);
+                }
+                1 => g1.as_mut().unwrap().reactivate(),
+                2 => g1.as_mut().unwrap().reactivate_after(|| {}),
+                3 => g1.as_mut().unwrap().reactivate_after(|| churn(1)),
+                4 => {
+                    let t = circ::cs();
+                    t.flush();
+                    drop(t);
+                }
+                5 => {
+                    for _ in 0..70 {
+                        let (n, _) = new_node(0);
+                        drop(n);
+                    }
+                }
+                6 => {
+                    for _ in 0..70 {
+                        let (n, _) = new_node(0);
+                        n.finalize(&g);
+                    }
+                }
+                7 => {
+                    drop(g1.take());
+                    g1 = Some(circ::cs());
+                }
+                8 => {
+                    for _ in 0..70 {
+                        let (n, nid) = new_node(0);
+                        l_rc(nid, 1);
+                        s0.roots[1].store(n, SeqCst, &g);
+                        l_rc(nid, -1);
+                    }
+                }
+                _ => {
+                    g.flush();
+                    for _ in 0..70 {
+                        let (n, _) = new_node(0);
+                        drop(n);
+                    }
+                }
+            }
+            let a = verif::local_state(&g).map_or(0, |s| s.announced);
+            let ge = verif::global_epoch();
+            mon::eval("guard-model");
+            if a != a0 {
+                mon::observer_violation(
+                    "C16",
+                    "C16|announced-epoch-moved-under-live-guard",
+                    format!("scenario d14 (inner op {}): after round {} the participant announces {} instead of {} although the outer guard is live", inner_op, round + 1, a, a0),
+                );
+            }
+            if ge < a0 || ge - a0 > 1 {
+                mon::observer_violation(
+                    "C14",
+                    "C14|epoch-advanced-twice-within-critical-section",
+                    format!("scenario d14 (inner op {}): the outer guard has been live since epoch {} but the global epoch is {}", inner_op, a0, ge),
+                );
+            }
+            if let Some(n) = snap.as_ref().and_then(|s| s.as_ref()) {
+                n.check_live(Some(xid), "C02", if holder == 0 { "load" } else { "WeakSnapshot::upgrade" });
+            }
+            set(3, round + 1);
+            wait(4, round + 1);
+        }
+        if let Some(n) = snap.as_ref().and_then(|s| s.as_ref()) {
+            n.check_live(Some(xid), "C02", if holder == 0 { "load" } else { "WeakSnapshot::upgrade" });
+        }
+        if let Some(ws) = wsnap.as_ref() {
+            // the block must still be allocated: reading the counters is legal
+            mon::eval("dealloc-ledger");
+            if mon::id_of_addr(ws.verif_addr()) != Some(xid) {
+                mon::violation("C03", "C03|dealloc-while-weak-snapshot", format!("scenario d14: block of obj {} freed while a WeakSnapshot under a live guard refers to it", xid));
+            }
+        }
+        if snap.is_some() {
+            l_snap(xid, if holder == 0 { 0 } else { 5 }, -1);
+        }
+        if wsnap.is_some() {
+            obj(xid).wsnap.fetch_add(-1, SeqCst);
+        }
+        drop(g1);
+        mon::guard_deregister(serial);
+        drop(g);
+        set(9, 1);
+    });
+    let s1 = sh.clone();
+    let b1: Box<dyn FnOnce() + Send> = Box::new(move || {
+        wait(1, 1);
+        if holder == 1 {
+            let w = s1.wroots[0].swap(Weak::null(), SeqCst);
+            obj(xid).weak.fetch_add(-1, SeqCst);
+            drop(w);
+            mon::oplog(1, "w = wroot0.swap(null); drop(w)  (last weak reference); then one collection round per reader round".into());
+        } else {
+            let old = s1.roots[0].swap(Rc::null(), SeqCst);
+            drop(old);
+            mon::oplog(1, "old = root0.swap(null); drop(old)  (last strong reference); then one collection round per reader round".into());
+        }
+        churn(1);
+        set(2, 1);
+        for round in 0..rounds {
+            wait(3, round + 1);
+            churn(2);
+            set(4, round + 1);
+        }
+    });
+    let _ = run("d14", J::obj().set("scenario", "d14").set("residue", residue).set("inner_op", inner_op).set("holder", holder), vec![], vec![b0, b1]);
+    {
+        let g = circ::cs();
+        let w = sh.wroots[0].swap(Weak::null(), SeqCst);
+        if !w.is_null() {
+            obj(xid).weak.fetch_add(-1, SeqCst);
+        }
+        drop(w);
+        drop(g);
+    }
+    finish(&sh);
+    get(9) == 1
+}
+
 pub struct ScenOut {
     pub execs: u64,
     pub materialised: u64,
@@ -651,10 +835,34 @@ pub fn run_all(which: &str, shard: u64, nshards: u64, thorough: bool) -> ScenOut
             }
         }
     }
+    if which == "c12" {
+        // the modular window going stale during a long disposal (stamps of true age 0 must never look old enough)
+        for &r in &residues {
+            for chain in if thorough { vec![700usize, 1000, 1400] } else { vec![1000] } {
+                one("d7", vec![r, chain], &|| d7(r, chain), &mut out);
+            }
+        }
+    }
     if which == "d13" {
         for &r in &[0usize, 3, 7, 12, 15] {
             for chain in [200usize, 400] {
                 one("d13", vec![r, chain], &|| d13(r, chain), &mut out);
+            }
+        }
+    }
+    if which.starts_with("d14") {
+        let rs: Vec<usize> = if thorough { (0..16).collect() } else { vec![0, 6, 14] };
+        // d14s: strong holders (Snapshot), d14w: weak holder (WeakSnapshot), d14: all
+        let holders: Vec<usize> = match which {
+            "d14s" => vec![0, 2],
+            "d14w" => vec![1],
+            _ => vec![0, 1, 2],
+        };
+        for &r in &rs {
+            for op in 0..D14_OPS {
+                for &holder in &holders {
+                    one("d14", vec![r, op, holder], &|| d14(r, op, holder), &mut out);
+                }
             }
         }
     }
